@@ -99,7 +99,9 @@ impl Slicing {
             .map(Variable::into_int)
             .transpose()
             .unwrap()
-            .map(|i| i as isize);
+            // slyce negates negative indices and isize::MIN cannot be negated;
+            // every index below -len selects the same elements
+            .map(|i| i.max(-i64::MAX) as isize);
         Ok(start)
     }
 }
